@@ -23,6 +23,7 @@ func init() {
 			{Name: "roundtrip/leaf-corners", Count: core.FixedCount(cdcnmon.C10LeafCases(), cdcnmon.C10LeafCases()), Run: cdcnmon.RunC10Leaves, BlockIsViolation: true},
 			{Name: "roundtrip/narrow-widths", Count: core.FixedCount(5000, 100000), Run: func(c *core.Ctx, idx int) { cdcnmon.RunC10Narrow(c) }, BlockIsViolation: true},
 			{Name: "totality/cyclic-and-deep", Count: core.FixedCount(cdcnmon.C10TotalityCases(), cdcnmon.C10TotalityCases()), Run: cdcnmon.RunC10Totality},
+			{Name: "totality/elision-model", Count: core.FixedCount(15000, 300000), Run: func(c *core.Ctx, idx int) { cdcnmon.RunC10Elision(c) }},
 			{Name: "purity/call-sequences", Count: core.FixedCount(6000, 150000), Run: func(c *core.Ctx, idx int) { cdcnmon.RunC10Purity(c) }},
 		},
 		Repro: map[string]func() (bool, string){
